@@ -7,8 +7,13 @@ from . import rng as R
 
 
 def dataset(records, attrs, sizes):
+    weights = None
+    if records and len(records[0]) == len(attrs) + 1:
+        # weighted records: the last entry of each record is its weight
+        weights = np.array([float(r[-1]) for r in records])
+        records = [list(r[:-1]) for r in records]
     df = pd.DataFrame(records, columns=attrs, dtype=int) if records else pd.DataFrame({a: pd.Series([], dtype=int) for a in attrs})
-    return Dataset(df, Domain(attrs, sizes))
+    return Dataset(df, Domain(attrs, sizes), weights) if weights is not None else Dataset(df, Domain(attrs, sizes))
 
 
 def neighbours(records, sizes, adjacency, rng, limit=None):
@@ -42,7 +47,8 @@ def run_mechanism(name, params, records, attrs, sizes, interposer, iters_cap=25)
             elif name == "AIM":
                 m = R.load_mechanism("aim")
                 wl = [(tuple(c), 1.0) for c in params.get("workload") or itertools.combinations(attrs, 2)]
-                mech = m.AIM(params["epsilon"], params["delta"], rounds=params.get("rounds"), max_model_size=params.get("max_model_size", 80))
+                kw = {"structural_zeros": {tuple(k_.split(",")): [tuple(c_) for c_ in v_] for k_, v_ in params["structural_zeros"].items()}} if params.get("structural_zeros") else {}
+                mech = m.AIM(params["epsilon"], params["delta"], rounds=params.get("rounds"), max_model_size=params.get("max_model_size", 80), **kw)
                 out = mech.run(data, wl)
             elif name == "MWEM":
                 m = R.load_mechanism("mwem+pgm")
